@@ -112,7 +112,12 @@ func (s *vpConnScn) notify(kind int) {
 // vpH_C11_T_grace: up to three notifications (disconnect / reconnect) at symbolic instants (flapping
 // included), grace period default (5s) or configured (2H..8s symbolic): never demoted by the grace mechanism
 // before lastDisconnect+G, demoted exactly then (with OnDemote) when no reconnect arrived and it still leads.
-func vpH_C11_T_grace() {
+func vpH_C11_T_grace() { vpC11Grace(3) }
+
+// thorough: up to five notifications
+func vpH_C11_T_grace5() { vpC11Grace(5) }
+
+func vpC11Grace(maxN int) {
 	H := 10 * time.Second // few heartbeats inside the horizon: they are independent of the notifications
 	var grace time.Duration
 	if vpChoose("grace", 2) == 1 {
@@ -121,7 +126,7 @@ func vpH_C11_T_grace() {
 	}
 	s := vpConnInstance(H, grace, nil)
 	s.kv.opLeft = 40
-	n := 1 + vpChoose("notifications", 3)
+	n := 1 + vpChoose("notifications", maxN)
 	for i := 0; i < n; i++ {
 		vpDelay("gap", 0, 3*time.Second)
 		// a disconnect not followed by a reconnect within the grace period must have demoted the leader by now
